@@ -27,7 +27,7 @@ SUPPORTED = ["buf", "and", "or", "xor", "not", "nand", "nor", "xnor", "0", "1", 
 
 def bounds(tier):
     q = tier == "quick"
-    return {"depth": 3 if q else 4, "names": ["a", "b"] if q else ["a", "b", "c"], "seed_circuits": 4}
+    return {"depth": 3 if q else 4, "names": ["a", "b"] if q else ["a", "b", "c"], "seed_circuits": 7}
 
 
 def jobs(tier, seed):
@@ -101,6 +101,17 @@ def alphabet(names):
     ops.append(["connect", [U[0], U[1]], U[-1]])
     ops.append(["connect", U[0], [U[1], U[-1]]])
     ops.append(["connect", [U[0], "q"], U[1]])
+    # one call, several targets from a blackbox output pin (which may drive ONE buf only)
+    ops.append(["connect", "k.o", [U[0], U[1]]])
+    ops.append(["connect", "k.o", [U[1], U[1]]])
+    ops.append(["add", "k.o", "bb_output", None, [U[0], U[1]], False])
+    ops.append(["add_blackbox", "k", {"o": [U[0], U[1]]}])
+    # one call, several sources of which a later one is illegal: nothing of the call may stay behind
+    ops.append(["connect", [U[0], "k.i"], U[-1]])
+    ops.append(["connect", ["k.i", U[0]], U[-1]])
+    ops.append(["connect", [U[0], "k.o"], U[-1]])
+    ops.append(["add", U[-1], "and", [U[0], "k.i"], None, False])
+    ops.append(["add", "r", "and", [U[0], U[1], "k.i"], None, False])
     for u in U:
         for v in U:
             if u != v:
@@ -137,6 +148,7 @@ def core_alphabet():
             ["add", "b", "buf", ["q"], ["a"], False], ["add", "a", "and", None, None, True], ["add", "b", "x", None, None, False],
             ["connect", "a", "b"], ["connect", "b", "a"], ["connect", "a", "k.i"], ["connect", "k.o", "b"], ["connect", "k.o", "a"],
             ["connect", "b", "k.i"], ["connect", "k.i", "b"], ["connect", ["a", "b"], "b"],
+            ["connect", "k.o", ["a", "b"]], ["connect", ["a", "k.i"], "b"],
             ["disconnect", "a", "b"], ["disconnect", "k.o", "b"], ["remove", "a"], ["remove", "k.i"], ["remove", "k.o"], ["set_output", "b", True],
             ["add_blackbox", "k", None], ["add_blackbox", "k", {"i": "a", "o": "b"}], ["add_blackbox", "k", {"i": "a", "zz": "b"}],
             ["add_subcircuit", "c1", "s", {"x": "a", "g": "b"}], ["add_subcircuit", "c2", "s", {"x": "a"}], ["add_subcircuit", "c2", "k", None],
@@ -153,6 +165,10 @@ def seed_circuits():
         {"name": "top", "nodes": [["a", "input", [], False], ["b", "buf", [], True]],
          "bbs": [["k", "leaf", ["i"], ["o"], {"i": "a", "o": "b"}]]},
         {"name": "top", "nodes": [["a", "0", [], False], ["b", "not", ["a"], True]],
+         "bbs": [["k", "leaf", ["i"], ["o"], {}]]},
+        {"name": "top", "nodes": [["a", "buf", [], False], ["b", "buf", [], True]],
+         "bbs": [["k", "leaf", ["i"], ["o"], {}]]},
+        {"name": "top", "nodes": [["a", "input", [], False], ["b", "and", [], True]],
          "bbs": [["k", "leaf", ["i"], ["o"], {}]]},
     ]
     return descs
